@@ -188,9 +188,35 @@ def run_property(prop, tier="quick", seed=0, only=None):
                               f"hypotheses (canary proved on all {len(verdicts)} paths)")
         else:
             rep.canary_refuted += 1
-    # ---- 3. failed obligations: known finding? refute, search a failing input --------
+    # ---- 3. failed obligations: retry the undecided ones in one parallel batch with a three-fold budget ------
+    unknown_idx = [i for i, (vc, c, r, ident, k_occ) in enumerate(failed) if r["verdict"] == "unknown"]
+    if unknown_idx:
+        old = (SOLVE.Z3_TIMEOUT_MS, SOLVE.CVC5_TIMEOUT_MS)
+        SOLVE.Z3_TIMEOUT_MS, SOLVE.CVC5_TIMEOUT_MS = old[0] * 3, old[1] * 2
+        try:
+            again = solve_all([failed[i][0] for i in unknown_idx])
+        finally:
+            SOLVE.Z3_TIMEOUT_MS, SOLVE.CVC5_TIMEOUT_MS = old
+        for i, r2 in zip(unknown_idx, again):
+            vc, c, r, ident, k_occ = failed[i]
+            r = dict(r)
+            r["retry"] = r2["trail"]
+            if r2["verdict"] != "unknown":
+                r.update(verdict=r2["verdict"], backend=r2["backend"] + "(retry)", model=r2.get("model"))
+            failed[i] = (vc, c, r, ident, k_occ)
+    still = []
     for vc, c, r, ident, k_occ in failed:
-        handle_failed(rep, prop, vc, c, r, ident, open_known, tier, seed)
+        if r["verdict"] == "proved":
+            rep.discharged += 1
+            rep.by_backend[r["backend"]] = rep.by_backend.get(r["backend"], 0) + 1
+        else:
+            still.append((vc, c, r, ident, k_occ))
+    # then: known finding? finite refuter; one search for a failing input per function
+    rep._search_cache = {}
+    detailed = 0
+    for vc, c, r, ident, k_occ in still:
+        detailed += 1
+        handle_failed(rep, prop, vc, c, r, ident, open_known, tier, seed, detailed=detailed <= 12)
     # ---- 4. structural obligations ---------------------------------------------------
     for sob in prop.structural:
         try:
@@ -235,7 +261,7 @@ def _line_matches(relpath, line, snippet):
         return False
 
 
-def handle_failed(rep, prop, vc, c, r, ident, open_known, tier, seed):
+def handle_failed(rep, prop, vc, c, r, ident, open_known, tier, seed, detailed=True):
     """An obligation that was not discharged."""
     from . import harness as H
     verdict = r["verdict"]
@@ -262,7 +288,7 @@ def handle_failed(rep, prop, vc, c, r, ident, open_known, tier, seed):
                     return
     # finite refuter when the solvers did not answer sat themselves
     finite_model = None
-    if verdict == "unknown" and c is not None:
+    if verdict == "unknown" and c is not None and detailed:
         finite_model = finite_refute(c, vc, tier)
         if finite_model is not None:
             verdict = "refuted"
@@ -271,35 +297,24 @@ def handle_failed(rep, prop, vc, c, r, ident, open_known, tier, seed):
     found = None
     hz = getattr(c, "harness", None) if c is not None else None
     if hz is not None:
-        try:
-            stats, failures = H.search(c, hz, seed=seed, tier=tier,
-                                       budget=20000 if tier == "quick" else 300000)
-            detail["search"] = stats
-            if failures:
-                inputs, o, variant = failures[0]
-                found = {"inputs": H.encode(inputs), "failed_clauses": o.failed, "raised": o.raised,
-                         "variant": variant, "detail": o.detail}
-        except Exception as ex:
-            detail["search_error"] = f"{type(ex).__name__}: {ex}"
+        cache = getattr(rep, "_search_cache", {})
+        if c.key not in cache:
+            try:
+                stats, failures = H.search(c, hz, seed=seed, tier=tier,
+                                           budget=20000 if tier == "quick" else 300000)
+                res = {"stats": stats, "found": None}
+                if failures:
+                    inputs, o, variant = failures[0]
+                    res["found"] = {"inputs": H.encode(inputs), "failed_clauses": o.failed, "raised": o.raised,
+                                    "variant": variant, "detail": o.detail}
+                cache[c.key] = res
+            except Exception as ex:
+                cache[c.key] = {"stats": None, "found": None, "error": f"{type(ex).__name__}: {ex}"}
+        detail["search"] = cache[c.key].get("stats")
+        found = cache[c.key].get("found")
     detail["input"] = found
     detail["property"] = prop.id
     detail["contract"] = c.key if c is not None else None
-    if found is None and verdict == "unknown":
-        # last resort before calling it: one more attempt with a three-fold budget (guards against a loaded machine)
-        old = (SOLVE.Z3_TIMEOUT_MS, SOLVE.CVC5_TIMEOUT_MS)
-        SOLVE.Z3_TIMEOUT_MS, SOLVE.CVC5_TIMEOUT_MS = old[0] * 3, old[1] * 2
-        try:
-            again = solve_all([vc], procs=2)[0] if False else SOLVE.solve_all([vc, vc])[0]
-        finally:
-            SOLVE.Z3_TIMEOUT_MS, SOLVE.CVC5_TIMEOUT_MS = old
-        detail["retry"] = again["trail"]
-        if again["verdict"] == "proved":
-            rep.discharged += 1
-            rep.by_backend[again["backend"] + "(retry)"] = rep.by_backend.get(again["backend"] + "(retry)", 0) + 1
-            return
-        if again["verdict"] == "refuted":
-            verdict = "refuted"
-            detail["model"] = again.get("model")
     # The deciding step is the verifier accepting every obligation: an obligation that is not discharged is reported
     # as the violation - with a failing input when one was found, otherwise marked no-failing-input-found.
     detail["verifier_verdict"] = verdict
